@@ -346,8 +346,18 @@ func (env *Env) eqSeq(a SV, ai string, b SV, bi string, n string) string {
 	ha, hb := env.cur.heaps[ka], env.cur.heaps[kb]
 	c.n++
 	q := fmt.Sprintf("qe!%d", c.n)
-	return c.B("(forall ((%[1]s Int)) (=> (and (<= 0 %[1]s) (< %[1]s %[2]s)) (= (select (select %[3]s %[4]s) (+ %[5]s %[1]s)) (select (select %[6]s %[7]s) (+ %[8]s %[1]s)))))",
+	body := fmt.Sprintf("(=> (and (<= 0 %[1]s) (< %[1]s %[2]s)) (= (select (select %[3]s %[4]s) (+ %[5]s %[1]s)) (select (select %[6]s %[7]s) (+ %[8]s %[1]s))))",
 		q, nn, ha, ao, aoff, hb, bo, boff)
+	t := c.B("(forall ((%s Int)) %s)", q, body)
+	if c.raw == 0 {
+		// element-wise equality: all such formulas share the binder name, so a goal of
+		// this shape gets every earlier eqseq hypothesis instantiated at its skolem index
+		if _, ok := c.quants[t]; !ok {
+			c.quants[t] = &quantInfo{src: []string{"eqseq-index"}, smt: []string{q}, body: body, at: len(c.lines)}
+			c.qorder = append(c.qorder, t)
+		}
+	}
+	return t
 }
 
 func (e *Exec) pinRaw(t string) string {
@@ -742,6 +752,18 @@ func (env *Env) call(x *SExpr) SV {
 
 func (e *Exec) localByName(s *State, fn *ssa.Function, name string) (SV, bool) {
 	var best *ssa.Alloc
+	if name == "rangeindex" && e.invHeader != nil {
+		// the hidden index of the range loop whose invariant is being evaluated
+		for _, in := range e.invHeader.Instrs {
+			if st, ok := in.(*ssa.Store); ok {
+				if a, ok := st.Addr.(*ssa.Alloc); ok && a.Comment == "rangeindex" {
+					if v, live := s.vars[a]; live {
+						return SV{t: v, typ: a.Type().(*types.Pointer).Elem()}, true
+					}
+				}
+			}
+		}
+	}
 	for a := range s.vars {
 		if a.Comment == name && a.Parent() == fn {
 			if best == nil || a.Pos() > best.Pos() {
